@@ -14,6 +14,13 @@ def main():
     raw = sys.stdin.read() if not sys.stdin.isatty() else ""
     extra = json.loads(raw) if raw.strip() else {}
     mod = importlib.import_module(f"harness.{pid}")
+    monitor = None
+    if os.environ.get("PYVC_MONITOR_HARNESS") == "1":
+        # thorough tier: every contract on a repository function - proved or assumed - is also evaluated on each call the
+        # stand-in's documents cause (a contract that fires here is wrong about the code, whatever the solver said)
+        from harness import monitor_plugin as monitor
+
+        monitor.install()
     import io, contextlib
     buf = io.StringIO()
     with contextlib.redirect_stdout(buf):
@@ -37,6 +44,8 @@ def main():
         for kid in reproduced:
             if not any(f.get("known") == kid for f in out["failures"]):
                 out["failures"].append({"check": "known-witness", "case": "committed witness", "msg": "reproduces", "known": kid, "function": None, "oid": None})
+    if monitor is not None:
+        out["monitor"] = monitor.STATS
     print(json.dumps(out, default=str))
 
 
